@@ -5,6 +5,16 @@ from mirfacts import callee_path, resolved_id
 from tyutil import name_projection, adt_lookup
 
 
+def _freeze_op(op):
+    import json
+    return json.dumps(op, sort_keys=True)
+
+
+def _thaw_op(s):
+    import json
+    return json.loads(s)
+
+
 class BodyView:
     """a body + lazily computed provenance / dominators, with naming helpers"""
 
@@ -269,15 +279,22 @@ class BodyView:
             kind, bi, si, rv = cands[0]
             if rv['r'] == 'use' and rv['op']['o'] in ('copy', 'move'):
                 op = rv['op']
-                out.append((self.describe_operand(op), {value}, ('def', bi, si)))
+                out.append((self.describe_operand(op), {value}, ('def', bi, si, _freeze_op(op))))
                 if not op['p']['proj']:
                     out += self._bool_local_facts(op['p']['l'], value, depth, hops + 1)
             elif rv['r'] == 'unop' and rv['op'] == 'Not' and rv['a']['o'] in ('copy', 'move'):
                 op = rv['a']
-                out.append((self.describe_operand(op), {not value}, ('def', bi, si)))
+                out.append((self.describe_operand(op), {not value}, ('def', bi, si, _freeze_op(op))))
                 if not op['p']['proj']:
                     out += self._bool_local_facts(op['p']['l'], not value, depth, hops + 1)
         return out
+
+    def guard_operand(self, g):
+        """the operand whose value a guard (from guards / guards_ext) fixes"""
+        sw = g[2]
+        if isinstance(sw, int):
+            return self.b.blocks[sw]['term']['discr']
+        return _thaw_op(sw[3])
 
     def guarded_by(self, block, atom_pred, value):
         for atom, vals, s in self.guards(block):
